@@ -5,7 +5,7 @@ import random
 import subprocess
 import time
 
-from bcverif.runner import MachineryError, SPEC, pmap, setup_repo_import
+from bcverif.runner import MachineryError, SPEC, pmap, setup_repo_import, suite_events
 
 LEVEL_SHIFTS = [17, 20, 23, 26, 29]
 MAXC = 2 ** 29
@@ -209,6 +209,7 @@ def run(chk):
     evs += [e for part in pmap(_hide_events, [(chk.seed * 1000 + i, nh) for i in range(32)]) for e in part]
     nq = 12 if quick else 150
     evs += [e for part in pmap(_rq_events, [(chk.seed * 1000 + i, nq) for i in range(32)]) for e in part]
+    evs += suite_events(chk, "C16Trace")  # leg S: the repository's own tests, traced passively
     chk.validate("C16Trace", evs, shard=6000, label="bins", keyfn=_key)
     chk.nontrivial = len({(e[0], e[1], e[2], e[3] if e[0] != "hide" else 0) for e in evs})
     chk.extra["event_kinds"] = {k: sum(1 for e in evs if e[0] == k) for k in ("bin", "set", "hide", "rq")}
